@@ -223,7 +223,7 @@ def check_unit(spec_path, do_twins=True, keep=True):
         for idx, it in enumerate(meta["items"]):
             if it["contracted"]:
                 ttext, _ = vspec.generate(u, REPO, SPECS, twin_of=idx)
-                tpath = os.path.join(gdir, "%s.twin%d.rs" % (u["unit"], idx))
+                tpath = os.path.join(gdir, "%s_twin%d.rs" % (u["unit"], idx))
                 open(tpath, "w").write(ttext)
                 jobs.append((it["label"], tpath))
         with cf.ThreadPoolExecutor(max_workers=8) as ex:
